@@ -38,6 +38,9 @@ type Obj struct {
 	Queue []Value
 	Cap   int
 	Type  types.Type
+	// Shared: storage of a global of a package whose code is not executed. It is never written
+	// (a write is reported as unsupported), so all states share it instead of copying it.
+	Shared bool
 }
 
 type MapEntry struct {
@@ -86,6 +89,10 @@ func (c *cloner) obj(o *Obj) *Obj {
 	}
 	if n, ok := c.memo[o]; ok {
 		return n
+	}
+	if o.Shared {
+		c.memo[o] = o
+		return o
 	}
 	n := &Obj{ID: o.ID, Kind: o.Kind, Cap: o.Cap, Type: o.Type}
 	c.memo[o] = n
@@ -305,6 +312,9 @@ func (s *State) store(p Ptr, v Value) {
 	if p.O == nil {
 		panic(crash{"nil pointer dereference (store)"})
 	}
+	if p.O.Shared {
+		panic(unsupported{"write to a global of a package whose code is not executed"})
+	}
 	v = copyAgg(v)
 	if len(p.Path) == 0 {
 		p.O.Val = v
@@ -456,15 +466,23 @@ func (r *renderer) obj(o *Obj) {
 	case "iter":
 		r.obj(o.IterMap)
 		r.sb.WriteString(" snap=")
+		var snap []string
 		for _, k := range o.IterSnap {
-			r.val(k)
-			r.sb.WriteByte(',')
+			kr := &renderer{tc: r.tc, ids: map[*Obj]int{}}
+			kr.val(k)
+			snap = append(snap, kr.sb.String())
 		}
+		sort.Strings(snap)
+		r.sb.WriteString(strings.Join(snap, ","))
 		r.sb.WriteString(" seen=")
+		var seen []string
 		for _, k := range o.IterSeen {
-			r.val(k)
-			r.sb.WriteByte(',')
+			kr := &renderer{tc: r.tc, ids: map[*Obj]int{}}
+			kr.val(k)
+			seen = append(seen, kr.sb.String())
 		}
+		sort.Strings(seen)
+		r.sb.WriteString(strings.Join(seen, ","))
 	case "chan":
 		for _, k := range o.Queue {
 			r.val(k)
